@@ -57,11 +57,22 @@ RULE = ('exhaustive: (a) every well-formed label vector (cycles 0..K-1 as contig
         '(dense, mixed lengths with gaps, all separated). Every one of the 12 maps is compared and checked on every '
         'EXISTING index of its level (0..size-1) and the 6 projections on value vectors with one distinct value per item '
         'of their level; tokens compared exactly (index sets as sets). '
-        'random: K up to 60 cycles, lengths 1..30, gaps, run-structured selections. '
+        'The selections are handed to get_subset_vector as booleans and (second exhaustive pass on the mixed recording and '
+        'on every label vector with >= 3 cycles of length <= 6; 35 % of the random cases) as 0/1 integer flags. '
+        'random: K up to 60 cycles, lengths 1..30, gaps, run-structured selections; in 30 % of the cases the label array '
+        '(and the subset / chain arrays when the sizes agree) first holds an EARLIER labelling on which all maps are used, '
+        'is then relabelled in place, and the answers must describe the current content. '
+        'Arrays are handed over writable; a routine writing into one is a mechanism-level report (argument-modified:*). '
+        'Empty recordings / recordings without a cycle are compared with the model, their failures are mechanism-level; '
+        'time-outs are skipped and tagged. '
         'Outside the property (recorded as outside-domain:* tags in the distribution, never a disagreement or a failure): '
         'the answer at the index one past the end of each level, value vectors shorter/longer than their level, and the '
         'whole malformed stream (selection vector length != K, repeated / skipped / out-of-order labels). '
         'A case is non-trivial when it has an unlabelled sample, an unselected cycle and at least two chains.')
+
+
+def _timed_out(out):
+    return isinstance(out, ImplError) and out.get('error') == 'Timeout'
 
 
 _NOTES = {}      # case key -> tags about answers outside the property's domain (filled by compare, read by tags)
@@ -89,6 +100,15 @@ class Exhaustive(Stream):
             for cv in _maps.canonical_cvs(K):
                 for pre in itertools.product((0, 1), repeat=npre):
                     yield {'cv': cv, 'K': K, 'prefix': list(pre)}
+        # the same selections handed over as 0/1 INTEGER flags (how the library stores per-cycle flags such as 'is_good')
+        for n in range(1, min(N, 6) + 1):
+            for cv in _maps.wf_vectors(n):
+                if cv and max(cv) >= 2:
+                    yield {'cv': cv, 'K': max(cv) + 1, 'prefix': [], 'vd': 'int'}
+        for K in range(1, L + 1):
+            npre = max(0, K - 6)
+            for pre in itertools.product((0, 1), repeat=npre):
+                yield {'cv': _maps.canonical_cvs(K)[1], 'K': K, 'prefix': list(pre), 'vd': 'int'}
 
     def _items(self, case):
         for valids in _valids_of(case):
@@ -96,12 +116,14 @@ class Exhaustive(Stream):
             yield (valids,) + _maps.default_vals(case['K'], S, C)
 
     def impl(self, case):
-        return [_maps.impl_table(case['cv'], v, vc, vs, vh) for v, vc, vs, vh in self._items(case)]
+        return [_maps.impl_table(case['cv'], v, vc, vs, vh, vd=case.get('vd', 'bool')) for v, vc, vs, vh in self._items(case)]
 
     def ops(self, case, out):
         return [_maps.maps_op(case['cv'], v, vc, vs, vh) for v, vc, vs, vh in self._items(case)]
 
     def compare(self, case, out, results):
+        if _timed_out(out):
+            return 'skip:time-out (termination is not this property\'s subject)'
         if isinstance(out, ImplError):
             return 'implementation raised %s: %s' % (out['error'], out['msg'])
         notes = set()
@@ -118,8 +140,10 @@ class Exhaustive(Stream):
             _NOTES[case_key(case)] = sorted(notes)
 
     def holds(self, case, out):
+        if _timed_out(out):
+            return []
         if isinstance(out, ImplError):
-            return [Failure('raises:' + out['error'], out['msg'])]
+            return [Failure('raises:' + out['error'], out['msg'], literal=case['K'] > 0 and len(case['cv']) > 0)]
         fs = {}
         for (v, vc, vs, vh), o in zip(self._items(case), out):
             for f in _maps.check_instance(case['cv'], v, vc, vs, vh, o):
@@ -128,7 +152,9 @@ class Exhaustive(Stream):
 
     def tags(self, case, out):
         cv = case['cv']
-        t = ['K=%d' % case['K'], 'n=%s' % (len(cv) if len(cv) < 10 else '10+')]
+        t = ['K=%d' % case['K'], 'n=%s' % (len(cv) if len(cv) < 10 else '10+'), 'flags=%s' % case.get('vd', 'bool')]
+        if _timed_out(out):
+            t.append('skipped:time-out')
         if -1 in cv:
             t.append('has-gap')
         if cv and cv[0] == -1:
@@ -157,7 +183,53 @@ class Single(Stream):
             {'cv': [], 'valids': []},
             {'cv': [-1, -1], 'valids': []},
             {'cv': [0, 0, 1, 2, 2, 3, 4, 5], 'valids': [1, 1, 0, 1, 1, 1], 'vc': [1, 2, 3], 'vs': [1, 2, 3, 4, 5, 6, 7], 'vh': [9]},
+            # 0/1 integer selection flags: `~valids` on integers is a bitwise NOT (fancy indices -1 / -2), not a mask
+            {'cv': [0, 1, 2, 3, 4, 5, 6, 7, 8, 9, 10, 11], 'valids': [1, 1, 0, 1, 0, 0, 1, 1, 1, 0, 1, 1], 'vd': 'int'},
+            {'cv': [0, 1, 2, 3], 'valids': [0, 1, 0, 1], 'vd': 'int'},
+            # the SAME label array looked at before and relabelled in place since (a cycle dropped, the rest renumbered):
+            # the maps must describe the array as it is now, not a remembered earlier labelling
+            {'cv': [-1, 0, 0, 0, -1, -1, 1, 1, 1, 1, -1, -1, 2, 2, 2, 3, 3], 'valids': [1, 1, 1, 1],
+             'prev': {'cv': [-1, 0, 0, 0, 1, 1, 2, 2, 2, 2, -1, -1, 3, 3, 3, 4, 4], 'valids': [1, 1, 1, 1, 1]}},
+            {'cv': [0, 0, 1, 1, 2, 2], 'valids': [1, 0, 1], 'prev': {'cv': [0, 1, 1, 1, 1, 2], 'valids': [0, 1, 1]}},
         ]
+
+    def _gen_prev(self, rng, cv, valids):
+        """an earlier labelling of the same recording (same number of samples): one of today's gaps was a cycle (it has
+        been dropped and the rest renumbered since), one of today's cycles was two, the boundaries were one sample
+        earlier, or something unrelated; with another selection of the cycles"""
+        n, K = len(cv), len(valids)
+        blocks = [(k, len(list(g))) for k, g in itertools.groupby(cv)]
+        mode = rng.choice(['gap-was-cycle', 'split', 'shift', 'fresh'])
+        marks = None
+        if mode == 'gap-was-cycle':
+            gaps = [b for b, (k, ln) in enumerate(blocks) if k == -1]
+            if gaps:
+                g = rng.choice(gaps)
+                marks = [('g' if b == g else k, ln) for b, (k, ln) in enumerate(blocks)]
+        elif mode == 'split':
+            long = [b for b, (k, ln) in enumerate(blocks) if k != -1 and ln > 1]
+            if long:
+                g = rng.choice(long)
+                cut = rng.randint(1, blocks[g][1] - 1)
+                marks = []
+                for b, (k, ln) in enumerate(blocks):
+                    marks += [(k, cut), ('s', ln - cut)] if b == g else [(k, ln)]
+        elif mode == 'shift' and n > 1:
+            marks = [(k, 1) for k in ([cv[0]] + list(cv[:-1]))]
+        if marks is None:
+            pcv = self._gen_cv(rng, rng.choice([0, 1, 2, 3, 5, 8]))[:n]
+            marks = [(k, 1) for k in pcv + [-1] * (n - len(pcv))]
+        flat = [k for k, ln in marks for _ in range(ln)]
+        pcv, nxt = [], 0
+        for k, g in itertools.groupby(flat):
+            ln = len(list(g))
+            pcv += [-1] * ln if k == -1 else [nxt] * ln
+            nxt += (k != -1)
+        pv = self._gen_valids(rng, nxt)
+        if nxt == K and rng.random() < 0.5:   # same sizes: the subset / chain arrays are relabelled in place as well
+            pv = list(valids)
+            rng.shuffle(pv)
+        return {'cv': pcv, 'valids': pv}
 
     def _gen_cv(self, rng, K):
         cv = []
@@ -195,6 +267,10 @@ class Single(Stream):
         for _ in range(2000 if tier == 'thorough' else 250):
             K = rng.choice([0, 1, 2, 3, 5, 8, 13, 21, 40, 60])
             case = {'cv': self._gen_cv(rng, K), 'valids': self._gen_valids(rng, K)}
+            if rng.random() < 0.35:
+                case['vd'] = 'int'
+            if rng.random() < 0.3 and case['cv']:
+                case['prev'] = self._gen_prev(rng, case['cv'], case['valids'])
             if rng.random() < 0.3:
                 S, C = _maps.sizes(case['valids'])
                 case['vc'] = [rng.randint(-50, 50) for _ in range(max(0, K + rng.randint(-2, 2)))]
@@ -208,7 +284,9 @@ class Single(Stream):
         return case.get('vc', d[0]), case.get('vs', d[1]), case.get('vh', d[2])
 
     def impl(self, case):
-        return _maps.impl_table(case['cv'], case['valids'], *self._vals(case))
+        prev = case.get('prev')
+        return _maps.impl_table(case['cv'], case['valids'], *self._vals(case), vd=case.get('vd', 'bool'),
+                                prev=(prev['cv'], prev['valids']) if prev else None)
 
     def ops(self, case, out):
         return [_maps.maps_op(case['cv'], case['valids'], *self._vals(case))]
@@ -229,6 +307,8 @@ class Single(Stream):
                 note = 'outside-domain:malformed:' + ('model-differs:%s' % d if d else 'model-agrees')
             _NOTES[case_key(case)] = [note]
             return None
+        if _timed_out(out):
+            return 'skip:time-out (termination is not this property\'s subject)'
         if isinstance(out, ImplError):
             return 'implementation raised %s: %s' % (out['error'], out['msg'])
         r = results[0]
@@ -239,10 +319,10 @@ class Single(Stream):
         return d
 
     def holds(self, case, out):
-        if self._outside(case):
+        if self._outside(case) or _timed_out(out):
             return []
         if isinstance(out, ImplError):
-            return [Failure('raises:' + out['error'], out['msg'])]
+            return [Failure('raises:' + out['error'], out['msg'], literal=len(case['valids']) > 0 and len(case['cv']) > 0)]
         return _maps.check_instance(case['cv'], case['valids'], *self._vals(case), out)
 
     def tags(self, case, out):
@@ -255,6 +335,11 @@ class Single(Stream):
             t.append('has-unselected')
         if 'vc' in case:
             t.append('value-vectors-of-other-length')
+        t.append('flags=%s' % case.get('vd', 'bool'))
+        if 'prev' in case:
+            t.append('relabelled-in-place' + (':subset-too' if len(case['prev']['valids']) == len(v) else ''))
+        if _timed_out(out):
+            t.append('skipped:time-out')
         if not isinstance(out, ImplError):
             runs = [len(list(g)) for k, g in itertools.groupby(v) if k]
             if 1 in runs:
@@ -266,6 +351,16 @@ class Single(Stream):
         return -1 in case['cv'] and 0 in case['valids'] and C >= 2
 
     def shrink(self, case):
+        if 'vd' in case or 'prev' in case:
+            keep = {k: case[k] for k in ('vd', 'prev') if k in case}
+            if 'prev' in case:      # first try without the history, then keep it (sizes must stay equal: no structural shrinking)
+                yield {k: v for k, v in case.items() if k != 'prev'}
+                if 'vc' in case:
+                    yield dict({'cv': case['cv'], 'valids': case['valids']}, **keep)
+                return
+            for cand in self.shrink({k: v for k, v in case.items() if k != 'vd'}):
+                yield dict(cand, **keep)
+            return
         cv, v = case['cv'], case['valids']
         base = {'cv': cv, 'valids': v}
         if 'vc' in case:
